@@ -15,7 +15,13 @@ with a per-run probability a call ends by raising (after its in-call
 operations).  The reactor has to log that (twisted.logger, silenced by the
 harness) and carry on: a failing call counts as run, nothing may escape from
 runUntilCurrent(), and every clause below holds unchanged for the other calls
-that are due in that iteration.
+that are due in that iteration.  A third swarm knob (family "fine", either
+configuration) puts the run on a finer time grid: every delay and clock step is
+a multiple of 1/8 s or, by tape, of the run's fine unit (2^-4 .. 2^-13 s), so
+the time remaining until the earliest call is a fraction of a millisecond off
+every whole-millisecond value (and, for the smaller units, below 1 ms) while all
+arithmetic stays exact; the sleep-timeout clause is then compared exactly at
+sub-millisecond resolution.
 
 Oracle: models.timers.TimerModel (mode "reactor"), consulted on every call the
 reactor runs, at the end of every iteration, and after every operation
@@ -41,10 +47,16 @@ COMPONENTS = {"real": ["twisted.internet.base.ReactorBase.callLater/_insertNewDe
 RULE = ("run = up to 120 tape-chosen operations over up to 60 calls (callLater with dyadic delay >= 0 / cancel / reset / delay(+-) on pending or dead calls, "
         "from the top level or from inside a running call / timeout() / iteration after moving the clock by 0, k/8, exactly timeout() or a far jump), "
         "in 30% of runs plus one burst of 60-72 callLater followed by cancellation of ~90% of them (heap compaction), "
-        "in 2/3 of runs each timed call ends by raising with probability 0.1 or 0.3 (application failure inside an iteration in which other calls may be due), then a drain; "
+        "in 2/3 of runs each timed call ends by raising with probability 0.1 or 0.3 (application failure inside an iteration in which other calls may be due), "
+        "in 2/7 of runs (family 'fine', base or real-main-loop configuration) a fine time grid: each delay / clock step is by tape a multiple of 1/8 s or of the run's "
+        "unit 2^-4, 2^-6, 2^-10 or 2^-13 s (remaining times that are not whole milliseconds, also < 1 ms; real-loop runs also let 1-4 units pass between passes "
+        "without a sleep, and a whole-ms poller's truncated sleep ends at the last grid point before it), then a drain; "
         "non-trivial = at least 3 calls ran AND at least one pending call was cancelled AND one was rescheduled")
 ASSUMPTIONS = ["the clock does not move while an iteration is in progress",
-               "delays passed to callLater and reset are >= 0; all times are multiples of 1/8 s (exact in binary floating point)",
+               "delays passed to callLater and reset are >= 0; all times are multiples of 1/8 s, in fine-grid runs of 2^-13 s at the finest, and stay below 2^15 s "
+               "(exact in binary floating point, so 'never exceeds the time until the earliest pending call' is compared without tolerance on ReactorBase.timeout() "
+               "and with 1 us tolerance on the value handed to a real poller)",
+               "a poller may return before its timeout has elapsed (used to keep the simulated clock on the grid when a whole-millisecond poller is handed a truncated timeout)",
                "calls rescheduled (reset/delay) or created during an iteration may run in that iteration or the next one (weaker reading of 'first iteration')",
                "a timed call that raises has run (exactly once); its failure is the reactor's to log and excuses no other call from running in that iteration"]
 
@@ -69,8 +81,9 @@ class SimTimeReactor(ReactorBase):
 class Scenario(TimerScenario):
     mode = "reactor"
 
-    def __init__(self, sim):
+    def __init__(self, sim, fine_unit=None):
         TimerScenario.__init__(self, sim)
+        self.fine_unit = fine_unit
         self.timevar = [0.0]
         self.r = SimTimeReactor(self.timevar)
         self.burst_done = True
@@ -90,6 +103,8 @@ class Scenario(TimerScenario):
             to = self.r.timeout()
         bound = m.sleep_bound()
         sim.event("timeout", to, "bound=%r" % (bound,))
+        if self.fine_unit is not None and bound and bound * 1000 != int(bound * 1000):
+            sim.probe("sleep_bound_not_whole_ms")     # evidence only: the time to the earliest call is a fraction of a millisecond off
         if bound is not None:
             sim.check("timeout-bound", to is not None and 0 <= to <= bound, where,
                       lambda: "timeout()=%r but earliest pending call is due in %r (now=%r)" % (to, bound, m.now))
@@ -101,7 +116,7 @@ class Scenario(TimerScenario):
         sim, m, r = self.sim, self.m, self.r
         kind = sim.draw_weighted([("small", 5), ("zero", 2), ("to-timeout", 3), ("jump", 1)], "advance-kind")
         if kind == "small":
-            dt = sim.draw_int(1, 16, "dt") * EIGHTH
+            dt = sim.draw_int(1, 16, "dt") * self.draw_unit()
         elif kind == "zero":
             dt = 0.0
         elif kind == "to-timeout":
@@ -157,7 +172,7 @@ class Scenario(TimerScenario):
         burst = sim.draw_bool(0.3, "burst")
         self.burst_done = not burst
         self.max_calls = sim.draw_choice([60, 12, 30], "max-calls")
-        sim.config = {"nops": nops, "inner_p": self.inner_p, "burst": burst, "max_calls": self.max_calls}
+        sim.config = {"nops": nops, "inner_p": self.inner_p, "burst": burst, "max_calls": self.max_calls, "fine_unit": self.fine_unit}
         for _ in range(nops):
             room = len(self.order) < self.max_calls
             wc, wr = self.touch_weights()
@@ -195,8 +210,9 @@ class RealLoopScenario(Scenario):
     what the reactor asked its poller for (or, by tape, an early wake-up or an oversleep), so `timeout-bound` is checked
     on the value that really reaches select/poll/epoll/selector."""
 
-    def __init__(self, sim, kind):
+    def __init__(self, sim, kind, fine_unit=None):
         TimerScenario.__init__(self, sim)
+        self.fine_unit = fine_unit
         self.kind = kind
         self.timevar = [0.0]
         self.burst_done = True
@@ -262,7 +278,13 @@ class RealLoopScenario(Scenario):
         else:
             dt = timeout + plan[1]
             sim.fault("oversleep")
-        # float timeouts are differences of multiples of 1/8, hence exact; pollreactor rounds to whole ms, also exact here
+        # float timeouts are differences of multiples of 1/8, hence exact; pollreactor rounds to whole ms, also exact here.
+        # On the fine grid a poller that takes whole milliseconds is handed a truncated value, which is not on the grid:
+        # the simulated sleep then ends at the last grid point before it (a poller may always return early).
+        u = self.fine_unit
+        if u is not None and dt / u != int(dt / u):
+            dt = int(dt / u) * u
+            sim.probe("whole_ms_sleep_cut_to_grid")
         self.timevar[0] += dt
         m.move_clock(dt)
         sim.sim_time += dt
@@ -282,10 +304,18 @@ class RealLoopScenario(Scenario):
     def op_iterate(self):
         sim = self.sim
         kind = sim.draw_weighted([("exact", 5), ("early", 3), ("oversleep", 1), ("far", 1)], "sleep-kind")
+        if self.fine_unit is not None and sim.draw_bool(0.3, "busy-before-pass"):
+            # time passes outside the poller too (handlers): with less than a millisecond to go a whole-ms poller is asked
+            # for a zero timeout and never blocks, so only this moves the clock then
+            dt = sim.draw_int(1, 4, "busy") * self.fine_unit
+            self.timevar[0] += dt
+            self.m.move_clock(dt)
+            sim.sim_time += dt
+            sim.probe("clock_moved_between_passes_without_sleep")
         if kind == "early":
-            self.sleep_plan = ("early", sim.draw_int(0, 16, "dt") * EIGHTH)
+            self.sleep_plan = ("early", sim.draw_int(0, 16, "dt") * self.draw_unit())
         elif kind == "oversleep":
-            self.sleep_plan = ("over", sim.draw_int(1, 8, "dt") * EIGHTH)
+            self.sleep_plan = ("over", sim.draw_int(1, 8, "dt") * self.draw_unit())
         elif kind == "far":
             self.sleep_plan = ("over", 16.0)
             sim.fault("clock_jump")
@@ -307,13 +337,21 @@ class RealLoopScenario(Scenario):
             self.reraise()
 
 
+FINE_UNITS = (2.0 ** -4, 2.0 ** -6, 2.0 ** -10, 2.0 ** -13)   # 62.5 ms, 15.625 ms, ~0.98 ms, ~0.12 ms: none a whole number of ms
+
+
 def run(sim):
-    family = sim.draw_weighted([("base", 6), ("real", 4)], "family")
+    # third family (index 2, so tapes of the first two keep their meaning): either of the two configurations on a finer time grid
+    family = sim.draw_weighted([("base", 6), ("real", 4), ("fine", 4)], "family")
+    fine_unit = None
+    if family == "fine":
+        fine_unit = sim.draw_choice(FINE_UNITS, "fine-unit")
+        family = sim.draw_weighted([("base", 6), ("real", 4)], "fine-family")
     if family == "base":
-        Scenario(sim).main()
+        Scenario(sim, fine_unit).main()
         return
     kind = sim.draw_choice(list(R.KINDS), "reactor")
-    sc = RealLoopScenario(sim, kind)
+    sc = RealLoopScenario(sim, kind, fine_unit)
     try:
         sc.main()
         sim.config["family"] = "real-main-loop:" + kind
@@ -336,6 +374,9 @@ MUTANTS = [
     "base.py DelayedCall.reset: later time applied in place (time = newTime) without re-heapifying  -- caught: earliest-first / runs-in-first-iteration / timeout-bound",
     "base.py runUntilCurrent: failure handler entered once around the whole due-call loop instead of once per call (a failing call ends the batch)  -- caught (needs failing calls): runs-in-first-iteration",
     "base.py runUntilCurrent: 'with logHandler:' -> 'if True:' (a failing call's exception leaves runUntilCurrent)  -- caught (needs failing calls): iteration-raised",
+    "base.py timeout: result rounded up to whole milliseconds (ceil(delay * 1000) / 1000)  -- caught (needs the fine time grid): timeout-bound (after-iteration / real-sleep:*)",
+    "base.py timeout: result rounded to 3 decimals (round(..., 3))  -- caught (needs the fine time grid): timeout-bound",
+    "pollreactor.py doPoll: milliseconds rounded up instead of truncated (int(timeout * 1000) + 1 when inexact)  -- caught (needs the fine time grid, poll kind): timeout-bound real-sleep:poll",
     "base.py _insertNewDelayedCalls: cancelled staged calls pushed into the heap anyway  -- NOT caught: behaviourally equivalent (popped cancelled calls are skipped)",
     "base.py _insertNewDelayedCalls: _cancellations not decremented for cancelled staged calls  -- NOT caught: behaviourally equivalent (only makes compaction run more often)",
 ]
